@@ -122,11 +122,20 @@ def _case_1d(case, spl):
         pts = keep + rest[:64]
     xs = np.array([x for _k, x in pts])
     wit0 = {"cfg": cfg, "breaks": [float(b) for b in breaks]}
+    # odd seeds: ONE spline object whose coefficient array is taken once and refilled in place through that reference for every
+    # coefficient vector (what callers that keep `c = spline.coeffs` do); even seeds: a fresh spline per vector
+    shared = spl.Spline1D(basis) if case["seed"] % 2 else None
+    held = shared.coeffs if shared is not None else None
     for cname, c in splgen.coeff_vectors(rng, n):
         if basis.periodic:
             c = splgen.wrap_periodic(c, basis.ncells, p)
-        s = spl.Spline1D(basis)
-        s.coeffs[:] = c
+        if shared is not None:
+            s = shared
+            held[:] = c
+            cls.add("%s/coefficients-refilled-in-place" % name)
+        else:
+            s = spl.Spline1D(basis)
+            s.coeffs[:] = c
         for der in (0, 1):
             ref = rm.spline_eval(T, c, p, xs, der)
             ref2 = rm.spline_eval_scipy(T, c, p, xs, der)
